@@ -81,12 +81,17 @@ Definition side_gen (e : env) (F : nat) (p : pkg) (n : string) : bool :=
   | _ => false
   end.
 
-(* no accessors, no constructors, and the mapper (if any) is not embedded by
-   pointer with value-receiver methods: K_map_mapper_ptr_embedded *)
+(* no accessors, no constructors; a mapper embedded by pointer with value-receiver
+   methods (K_map_mapper_ptr_embedded) only when there is no mapper method at all
+   (then no statement can call one) *)
 Definition plain_gen (jb : job) : bool :=
-  match j_src_acc jb, j_dst_acc jb, j_src_ctor jb, j_dst_ctor jb, j_mapper_hop jb with
-  | [], [], [], [], None => true
-  | _, _, _, _, _ => false
+  match j_src_acc jb, j_dst_acc jb, j_src_ctor jb, j_dst_ctor jb with
+  | [], [], [], [] => match j_mapper_hop jb, j_funcs jb with
+                      | None, _ => true
+                      | Some _, [] => true
+                      | Some _, _ :: _ => false
+                      end
+  | _, _, _, _ => false
   end.
 
 Definition job_gen_guard (e : env) (F : nat) (jobs : list job) (jb : job) : bool :=
